@@ -1,0 +1,291 @@
+//! Verification hooks. Compiled only with `--cfg sas_lexer_verif`.
+//!
+//! Pure observers: nothing in here changes what the lexer does, except that
+//! lexing is cut short (and flagged) when the iteration budget is exceeded,
+//! which turns a hang into an in-process verdict.
+#![cfg(sas_lexer_verif)]
+
+use super::buffer::{Payload, TokenInfo};
+use super::channel::TokenChannel;
+use super::error::ErrorInfo;
+use super::lexer_mode::{LexerMode, MacroArgContext, MacroEvalNextArgumentMode};
+use super::token_type::TokenType;
+
+/// Plain-data view of a lexer mode.
+#[derive(Debug, Clone, PartialEq, Eq)]
+pub struct ModeView {
+    /// Variant name
+    pub kind: &'static str,
+    /// `ExpectSymbol`: token type; `MacroNameExpr`: error kind name or ""
+    pub a: String,
+    /// `ExpectSymbol`: channel
+    pub b: String,
+    /// Flags, decoded through the public accessors and re-packed:
+    /// `MacroEval`: float + 2*term_comma + 4*term_stat + 8*term_semi + 16*parens_mask + 32*next_arg
+    /// arg/value modes: ctx + 4*populate + 8*term_comma; others: the bool
+    pub n: u32,
+    /// Parenthesis nesting level, 0 when the mode has none
+    pub pnl: u32,
+}
+
+impl ModeView {
+    fn plain(kind: &'static str) -> Self {
+        ModeView {
+            kind,
+            a: String::new(),
+            b: String::new(),
+            n: 0,
+            pnl: 0,
+        }
+    }
+
+    pub(super) fn from_mode(m: &LexerMode) -> Self {
+        let mut v = Self::plain("");
+        match m {
+            LexerMode::Default => v.kind = "Default",
+            LexerMode::StringExpr { allow_stat } => {
+                v.kind = "StringExpr";
+                v.n = u32::from(*allow_stat);
+            }
+            LexerMode::MakeCheckpoint => v.kind = "MakeCheckpoint",
+            LexerMode::WsOrCStyleCommentOnly => v.kind = "WsOrCStyleCommentOnly",
+            LexerMode::ExpectSymbol(tt, ch) => {
+                v.kind = "ExpectSymbol";
+                v.a = tt.to_string();
+                v.b = ch.to_string();
+            }
+            LexerMode::ExpectSemiOrEOF => v.kind = "ExpectSemiOrEOF",
+            LexerMode::MaybeMacroCallArgsOrLabel { check_macro_label } => {
+                v.kind = "MaybeMacroCallArgsOrLabel";
+                v.n = u32::from(*check_macro_label);
+            }
+            LexerMode::MaybeMacroCallArgAssign { flags } => {
+                v.kind = "MaybeMacroCallArgAssign";
+                v.n = arg_flags(flags.context(), flags.populate_next_arg_stack(), flags.terminate_on_comma());
+            }
+            LexerMode::MacroCallArgOrValue { flags } => {
+                v.kind = "MacroCallArgOrValue";
+                v.n = arg_flags(flags.context(), flags.populate_next_arg_stack(), flags.terminate_on_comma());
+            }
+            LexerMode::MaybeMacroDefArgs => v.kind = "MaybeMacroDefArgs",
+            LexerMode::MacroDefArg => v.kind = "MacroDefArg",
+            LexerMode::MacroDefNextArgOrDefaultValue => v.kind = "MacroDefNextArgOrDefaultValue",
+            LexerMode::MacroDefName => v.kind = "MacroDefName",
+            LexerMode::MacroCallValue { flags, pnl } => {
+                v.kind = "MacroCallValue";
+                v.n = arg_flags(flags.context(), flags.populate_next_arg_stack(), flags.terminate_on_comma());
+                v.pnl = *pnl;
+            }
+            LexerMode::MaybeTailMacroArgValue => v.kind = "MaybeTailMacroArgValue",
+            LexerMode::MacroStrQuotedExpr { mask_macro, pnl } => {
+                v.kind = "MacroStrQuotedExpr";
+                v.n = u32::from(*mask_macro);
+                v.pnl = *pnl;
+            }
+            LexerMode::MacroEval {
+                macro_eval_flags: f,
+                pnl,
+            } => {
+                v.kind = "MacroEval";
+                let na = match f.follow_arg_mode() {
+                    MacroEvalNextArgumentMode::None => 0,
+                    MacroEvalNextArgumentMode::SingleEvalExpr => 1,
+                    MacroEvalNextArgumentMode::EvalExpr => 2,
+                    MacroEvalNextArgumentMode::MacroArg => 3,
+                };
+                v.n = u32::from(f.float_mode())
+                    + 2 * u32::from(f.terminate_on_comma())
+                    + 4 * u32::from(f.terminate_on_stat())
+                    + 8 * u32::from(f.terminate_on_semi())
+                    + 16 * u32::from(f.parens_mask_comma())
+                    + 32 * na;
+                v.pnl = *pnl;
+            }
+            LexerMode::MacroDo => v.kind = "MacroDo",
+            LexerMode::MacroLocalGlobal { is_local } => {
+                v.kind = "MacroLocalGlobal";
+                v.n = u32::from(*is_local);
+            }
+            LexerMode::MacroNameExpr(found, err) => {
+                v.kind = "MacroNameExpr";
+                v.n = u32::from(*found);
+                v.a = err.map_or_else(String::new, |e| e.to_string());
+            }
+            LexerMode::MacroSemiTerminatedTextExpr => v.kind = "MacroSemiTerminatedTextExpr",
+            LexerMode::MacroStatOptionsTextExpr => v.kind = "MacroStatOptionsTextExpr",
+        }
+        v
+    }
+}
+
+fn arg_flags(ctx: MacroArgContext, populate: bool, term_comma: bool) -> u32 {
+    let c = match ctx {
+        MacroArgContext::BuiltInMacro => 0,
+        MacroArgContext::MacroCall => 1,
+        MacroArgContext::MacroDef => 2,
+    };
+    c + 4 * u32::from(populate) + 8 * u32::from(term_comma)
+}
+
+/// Plain-data view of a token as stored in the work buffer.
+#[derive(Debug, Clone, Copy, PartialEq)]
+pub struct TokView {
+    pub ty: TokenType,
+    pub channel: TokenChannel,
+    pub byte: u32,
+    pub chr: u32,
+    /// zero-based line index
+    pub line: u32,
+    pub payload: Payload,
+}
+
+impl TokView {
+    pub(super) fn from_info(t: &TokenInfo) -> Self {
+        TokView {
+            ty: t.token_type,
+            channel: t.channel,
+            byte: t.byte_offset.get(),
+            chr: t.start.get(),
+            line: t.line() - 1,
+            payload: t.payload,
+        }
+    }
+}
+
+/// Plain-data view of the checkpoint.
+#[derive(Debug, Clone, Copy, PartialEq, Eq)]
+pub struct CkptView {
+    pub byte: u32,
+    pub chr: u32,
+    pub tok_byte: u32,
+    pub mode_len: u32,
+    pub ntok: u32,
+    pub nline: u32,
+    pub nlit: u32,
+}
+
+/// Checkpoint operations that happened inside one step
+#[derive(Debug, Clone, Copy, PartialEq, Eq)]
+pub enum CkptOp {
+    Checkpoint,
+    /// `clear_checkpoint` when one was set
+    Clear,
+    /// `clear_checkpoint` when none was set
+    ClearNone,
+    Rollback,
+    /// `rollback` without a checkpoint
+    RollbackMissing,
+    /// `checkpoint` while one was already set
+    CheckpointOverLive,
+}
+
+/// Phase in which a step was recorded
+#[derive(Debug, Clone, Copy, PartialEq, Eq)]
+pub enum Phase {
+    /// One iteration of the main loop in `Lexer::lex`
+    Lex,
+    /// One turn of the unwinding loop in `finalize_lexing`
+    Finalize,
+    /// The final EOF token
+    Eof,
+}
+
+/// Lexer configuration (everything but the output)
+#[derive(Debug, Clone, PartialEq, Eq, Default)]
+pub struct ConfigView {
+    pub modes: Vec<ModeView>,
+    pub ckpt: Option<CkptView>,
+    pub pend: Vec<bool>,
+    pub nest: u32,
+    /// Type of the last token in the buffer, if any
+    pub last_tok: Option<TokenType>,
+}
+
+/// One observable step of the machine
+#[derive(Debug, Clone)]
+pub struct IterEvent {
+    pub seq: u32,
+    pub phase: Phase,
+    /// Mode on top of the stack before the step (for finalize: the popped mode)
+    pub mode_before: ModeView,
+    /// Look-ahead char the step was dispatched on (`None` in finalize/eof)
+    pub next_char: Option<char>,
+    pub byte_before: u32,
+    pub byte_after: u32,
+    pub char_after: u32,
+    /// Start of the token being built, after the step
+    pub tok_byte_after: u32,
+    pub config_after: ConfigView,
+    pub ops: Vec<CkptOp>,
+    pub ntok_before: u32,
+    /// First token index whose content differs from before the step
+    /// (equals min(ntok_before, ntok_after) when nothing changed in place)
+    pub first_changed: u32,
+    /// Tokens from `first_changed` to the end, after the step
+    pub toks_tail: Vec<TokView>,
+    pub nline_before: u32,
+    pub nline_after: u32,
+    /// (byte, char) line starts from min(nline_before, nline_after) on
+    pub lines_tail: Vec<(u32, u32)>,
+    pub nerr_before: u32,
+    pub new_errors: Vec<ErrorInfo>,
+    pub nlit_after: u32,
+}
+
+/// Options for `lex_program_verif`
+#[derive(Debug, Clone, Copy)]
+pub struct VerifOptions {
+    /// Record one `IterEvent` per step
+    pub record: bool,
+    /// Lexing is aborted when iterations exceed `budget_mul * source_len + budget_add`
+    pub budget_mul: u64,
+    pub budget_add: u64,
+}
+
+impl Default for VerifOptions {
+    fn default() -> Self {
+        VerifOptions {
+            record: true,
+            budget_mul: 64,
+            budget_add: 256,
+        }
+    }
+}
+
+/// What the hooks observed
+#[derive(Debug, Clone, Default)]
+pub struct VerifReport {
+    pub events: Vec<IterEvent>,
+    /// Number of main-loop iterations
+    pub iters: u64,
+    /// Number of finalize turns
+    pub fin_iters: u64,
+    pub budget_exceeded: bool,
+    /// Max mode stack depth seen at step boundaries
+    pub max_stack: u32,
+    /// Configuration when the cursor reached end of input (before finalize)
+    pub at_eof: ConfigView,
+    /// Configuration at creation
+    pub at_start: ConfigView,
+}
+
+/// State of the recorder, a field of `Lexer` under the guard
+#[derive(Debug, Default)]
+pub(super) struct Recorder {
+    pub(super) opts: Option<VerifOptions>,
+    pub(super) report: VerifReport,
+    pub(super) budget: u64,
+    // snapshot taken before the step
+    pub(super) phase: Option<Phase>,
+    pub(super) mode_before: Option<ModeView>,
+    pub(super) next_char: Option<char>,
+    pub(super) byte_before: u32,
+    pub(super) nline_before: u32,
+    pub(super) nerr_before: u32,
+    pub(super) ops: Vec<CkptOp>,
+    /// Shadow copy of the token buffer as of the last step boundary
+    pub(super) shadow: Vec<TokenInfo>,
+}
+
+/// How far from the end in-place token mutations are looked for
+pub(super) const SHADOW_WINDOW: usize = 64;
